@@ -158,6 +158,10 @@ package codegen
 // object.gotpl. C13: a deferred field goes to the FieldSet of its label and is NOT also registered in the main
 // set; deferred groups are only started for an object that is itself valid.
 //@ family object [C13,C01]
+//@   stable FieldSet.Invalids
+//@   ghost nnNulls = 0
+//@   at `assign out.Values[i]` ghost nnNulls = nnNulls + ite(rhsNonNull && rhs0 == graphql.Null, 1, 0)
+//@   loop 1: step prev(out.Invalids) < 1000000 ==> out.Invalids - prev(out.Invalids) >= nnNulls - prev(nnNulls)
 //@   at `out.Concurrently(i, func(ctx context.Context) graphql.Marshaler { return innerFunc(ctx, out) })` requires field.Deferrable == nil
 //@   at `dfs.Concurrently(di, func(ctx context.Context) graphql.Marshaler { return innerFunc(ctx, dfs) })` requires field.Deferrable != nil
 //@   at `atomic.AddInt32(&ec.deferred, int32(len(deferred)))` requires out.Invalids == 0
@@ -181,3 +185,27 @@ package codegen
 //@ family unmarshalinput [C02]
 //@   at `assign asMap[k]` requires rhs0 == v
 //@   at `assign asMap[*]` requires !present
+// every value that was unmarshaled for a field is stored into the result (map-backed: also an explicit null)
+//@   ghost pending = 0
+//@   at `ec.unmarshal...` ghost pending = pending + 1
+//@   at `assign it[*]` ghost pending = 0
+//@   at `assign it.*` ghost pending = 0
+//@   at `ec.resolvers....` ghost pending = 0
+//@   loop 2: invariant pending == 0
+
+// type.gotpl with exec.worker_limit > 0: the element goroutine gives its semaphore slot back on EVERY path,
+// including a recovered panic (otherwise later elements can never acquire and the list never completes).
+//@ family listwl [C04,C05]
+//@   ensures calls(NewWeighted) <= 1
+//@ family listwl$closure [C04,C05]
+//@   ensures !isLen1 ==> calls(Release) == 1
+
+// models.gotpl (modelgen): a generated enum accepts exactly its declared spellings: success means the stored value
+// IS the input string (no silent substitution by a differently spelled value).
+//@ family enumisvalid [C02]
+//@   nopanic
+//@   pure
+//@   ensures calls(IsValid) == 0
+//@ family enumunmarshal [C02]
+//@   ensures res0 == nil ==> isType(v, "string") && deref(e) == asStr(v)
+//@   ensures res0 == nil ==> calls(IsValid) == 1
